@@ -279,7 +279,11 @@ def compare_parse(case, textlines):
             if isinstance(g, str):
                 bad.append(('part%d.kind' % x, 'code', 'text'))
                 continue
-            obs = (g.line_offset, g.n_exec_lines, g.n_want_lines, g.compile_mode, len(g.directives), bool(g.directives and g.directives[0].inline))
+            try:
+                obs = (g.line_offset, g.n_exec_lines, g.n_want_lines, g.compile_mode, len(g.directives), bool(g.directives and g.directives[0].inline))
+            except Exception as ex:           # the lazy directive extraction of a part may raise
+                bad.append(('part%d.directives' % x, 'a list', 'raised %r' % (ex,)))
+                continue
             want = (a - 1, b - a + 1, max(0, wb - wa + 1), mode, ndir, inl)
             if obs != want:
                 bad.append(('part%d(offset,nexec,nwant,mode,ndir,inline)' % x, want, obs))
